@@ -28,9 +28,13 @@ def gen_coeff(src, maxdigits=PREC):
     n = src.weighted([(4, None), (2, 1), (2, 2), (2, 17), (2, 33), (4, 34)])
     if n is None or n > maxdigits:
         n = src.int(1, maxdigits)
-    shape = src.weighted([(6, "rand"), (2, "nines"), (2, "one0"), (2, "five0"), (3, "tz"), (1, "zero"), (1, "one"), (2, "declets")])
+    shape = src.weighted([(6, "rand"), (2, "nines"), (2, "one0"), (2, "five0"), (3, "tz"), (1, "zero"), (1, "one"), (2, "declets"), (2, "pow2")])
     if shape == "declets":
         return gen_coeff_declets(src, maxdigits)
+    if shape == "pow2":
+        # next to the limits of the machine integers a conversion may go through (i8 ... u128, f64's 2^53)
+        c = str(2 ** src.choice(POW2_BITS) + src.int(-2, 2))
+        return c if len(c) <= maxdigits else c[:maxdigits]
     if shape == "zero":
         return "0"
     if shape == "one":
@@ -64,6 +68,9 @@ def gen_coeff_declets(src, maxdigits=PREC):
     for _ in range((n - lead) // 3):
         out += src.choice(DECLETS) if src.bool(0.7) else src.digits(3)
     return out
+
+
+POW2_BITS = [7, 8, 15, 16, 31, 32, 53, 63, 64, 100, 112]
 
 
 def gen_exp(src):
